@@ -190,6 +190,8 @@ def sweep_space(perturbs: List[dict], tail: Optional[List[dict]] = None, max_tic
     for pools, steps in base_scenarios(sizes):
         pre = list(steps)
         if second is not None:
+            if second.get("op") in ("cancel", "cancel_group", "cancel_all", "stop"):
+                pre.append({"op": "tick", "k": 2})      # let the tasks come into being before the earlier cancellation
             pre.append(copy.deepcopy(second))
         for c in perturbed(pre, perturbs, max_tick, places, pools, tail):
             cases.append(c)
